@@ -4,6 +4,7 @@
 -/
 import Lean.Data.Json
 import VModel.Pandas
+import VModel.PandasGood
 import VModel.Graph
 import VModel.Generated.Relations
 
@@ -184,6 +185,13 @@ def handle (req : Json) : Json :=
           | .error e => Json.mkObj [("raises", Json.str (errStr e))]
         Json.mkObj [("infer", enc (traverse g 64 b.root col () [])),
                     ("detect", enc (traverse g.base 64 b.root col () []))])
-  Json.mkObj [("contains", Json.mkObj cont), ("rels", Json.arr relJ.toArray), ("trav", Json.arr trav.toArray)]
+  -- the invariant of the pandas theorems on this input, and which conjuncts fail
+  let cellsOk := col.cells.all (fun x => Pd.cellWFB x && Pd.payWFB x && (!x.str.isSome || !x.null) && (x.null || Pd.headExclB x))
+  let strOk := col.cells.all Pd.strGoodB
+  let dtcOk := !col.dtype.isStringNonObject || col.cells.all (fun x => x.null || x.isStr)
+  let good := Json.mkObj [("good", Json.bool (Pd.goodB o col)), ("cells", Json.bool cellsOk), ("parsers", Json.bool strOk),
+    ("dtypeCells", Json.bool dtcOk), ("dtypePay", Json.bool (Pd.dtypePayB col)), ("oracle", Json.bool (Pd.oracleB o col)),
+    ("excl16", Json.bool (Pd.excl16B col)), ("noRaise", Json.bool (Pd.noRaiseB o col))]
+  Json.mkObj [("contains", Json.mkObj cont), ("rels", Json.arr relJ.toArray), ("trav", Json.arr trav.toArray), ("good", good)]
 
 end PdDrv
